@@ -585,6 +585,13 @@ def memo_bases():
                  Rule("N", Clo(Call("F", "x"))),
                  Rule("F", Lit("b"), position=True)],
                 ["a", "b", " "], ["P", "Q", "N"]))
+    # a memoized rule that can match nothing, asked twice at the very end of the input (and once in the middle)
+    out.append(("nullable_memo_at_end",
+                [Rule("S", Choice(Seq(Lit("a"), Call("M", "m"), Lit("!")), Seq(Lit("a"), Call("M", "m"), Opt(Call("N", "n"))),
+                                  Seq(Pos(Call("N")), Call("N", "n"))), export=True, no_skip_ws=True),
+                 Rule("M", Clo(Lit("b")), no_skip_ws=True, string=True, position=True),
+                 Rule("N", Opt(Seq(Lit("c"), Opt(Call("N", "n", boxed=True)))), no_skip_ws=True)],
+                ["a", "b", "c", "!"], ["M", "N"]))
     # a user function with a bug: it panics on '!'.  The panic reaches the caller of parse() and nothing of that
     # call may show in any later parse (sequentially, in another order, on other threads)
     out.append(("panicking_extern",
@@ -652,12 +659,15 @@ def fam_memo(tier, seed):
             if name in ("memo_in_closure", "failing_prefix", "three_level"):
                 # inputs longer than 256 / 512 bytes: a cache keyed on part of the offset shows only there
                 lr_ = random.Random(seed * 7919 + 41 + len(name))
-                for n_ in ((300,) if tier == "quick" else (300, 600, 1100)):
+                for n_ in ((300, 256, 512) if tier == "quick" else (300, 256, 512, 600, 1024, 1100, 4096)):
                     unit = {"memo_in_closure": ["ax", "aay", "ay", "aaax"], "failing_prefix": ["a", "b", "ab"],
                             "three_level": ["a", "aa", "x"]}[name]
                     t = ""
                     while len(t) < n_:
                         t += lr_.choice(unit)
+                    if n_ in (256, 512, 1024, 4096):
+                        while len(t) > n_:            # exactly a power of two bytes long
+                            t = t[:-len(unit[0])] if len(t) - len(unit[0]) >= n_ else t[:n_ - 2] + "ax"[:2] if name == "memo_in_closure" else t[:n_]
                     if name == "three_level":
                         t = "a" * (n_ % 2 + 1) + "x"
                     g.real_extra.append(list(t))
@@ -766,6 +776,8 @@ def fam_lr(tier, seed):
                     meta={"shape": name, "lrfirst": lrfirst})
         g.alpha = alpha
         add_extras(g, random.Random(seed * 7919 + 7 + len(out)), 15 if tier == "quick" else 80, 5, 9)
+        if name == "recursive_alternative_not_first_nested":
+            g.extra += [list(x) for x in ("(-1)+1", "(1)+1", "(-1)+1+1", "((1))+1", "-1+1", "(1+1)+1", "((-1)+1)+1", "(1)+(1)", "(-1)")]
         if well_formed(g):
             out.append(g)
     return out
@@ -1192,6 +1204,7 @@ def fam_user(tier, seed):
                     user_rs.append(c["rust"])
         g = Grammar(gid, rules, maxlen=maxlen, meta={"shape": name, "user_rs": "\n".join(user_rs)})
         g.alpha = alpha
+        add_extras(g, random.Random(seed * 7919 + 70 + len(out)), 8 if tier == "quick" else 40, 4, 8)
         if well_formed(g):
             out.append(g)
     return out
